@@ -61,96 +61,164 @@ func c06R3only(c *Ctx, r *Report, rule, prefix string) {
 }
 
 func c07R12(c *Ctx, r *Report) {
-	r.rule("C07.R1", "record gate: the read of the hello body is dominated by the false edge of header[0] != 22 (or true edge of == 22); the other edge returns (false, nil)", 1)
-	r.rule("C07.R2", "length-exact read: the hello buffer is make([]byte, int(uint16(header[3])<<8 | uint16(header[4]))) and is read with io.ReadFull", 1)
+	r.rule("C07.R1", "record gate (evaluation of Match on fixed first messages, reads served from the message): a record whose type byte is not 22 answers (false, nil) after the 5 header bytes and nothing else is read or parsed; a handshake record is read and handed to the hello parser", 1)
+	r.rule("C07.R2", "length-exact read: for handshake records announcing 5, 256 and 0x1234 body bytes (trailing bytes present) exactly 5 + that many bytes are consumed and exactly the body is handed to the hello parser; a body that is not complete yet answers 'need more'", 1)
 	fnName := "modules/l4tls.(*MatchTLS).Match"
 	fn := c.Fn(fnName)
 	if fn == nil {
 		r.bad("C07.R1", fnName, "exists", "-", "function not found")
 		return
 	}
-	var reads []*ssa.Call
-	for _, ci := range callsIn(fn) {
-		if calleeID(ci) == "io.ReadFull" {
-			reads = append(reads, ci.(*ssa.Call))
+	mk := func(typ byte, n int, have int) []byte {
+		b := []byte{typ, 3, 1, byte(n >> 8), byte(n)}
+		for i := 0; i < have; i++ {
+			b = append(b, byte(i*7+1))
 		}
+		return b
 	}
-	if len(reads) != 2 {
-		r.bad("C07.R1", fnName, "two reads", c.pos(fn.Pos()), fmt.Sprintf("expected the header read and the hello read (io.ReadFull x2), found %d", len(reads)))
-		return
+	type tc struct {
+		name      string
+		msg       []byte
+		handshake bool
+		body      int // announced
+		complete  bool
 	}
-	hdrBuf := rootOf(reads[0].Call.Args[1])
-	isHdrByte := func(v ssa.Value, idx int64) bool {
-		u, ok := v.(*ssa.UnOp)
-		if !ok || u.Op != token.MUL {
-			return false
+	cases := []tc{
+		{"application data record", mk(23, 5, 9), false, 5, true},
+		{"alert record", mk(21, 2, 2), false, 2, true},
+		{"type 0", mk(0, 0x1603, 40), false, 0x1603, true},
+		{"handshake, 5 bytes, trailing data", mk(22, 5, 9), true, 5, true},
+		{"handshake, 256 bytes, trailing data", mk(22, 256, 300), true, 256, true},
+		{"handshake, 0x1234 bytes, trailing data", mk(22, 0x1234, 0x1234+3), true, 0x1234, true},
+		{"handshake, 0x0102 bytes, exact", mk(22, 0x0102, 0x0102), true, 0x0102, true},
+		{"handshake, body incomplete", mk(22, 300, 120), true, 300, false},
+	}
+	var p1, p2 []string
+	for _, t := range cases {
+		mm := msgMatcher{fn: fnName, cfgName: "tls", heap: func(h map[string]SV) {
+			h["m.matchers"] = symSlice("matchers", 0)
+			h["m.logger"] = symRef("logger", false)
+		}}
+		sc := msgScenario(c, mm, msgCase{name: t.name, msg: t.msg})
+		orig := sc.Call
+		parsed := -1
+		parsedOK := true
+		sc.Call = func(callee string, args []SV, ev *symEval, st *symState) (SV, bool) {
+			switch {
+			case strings.HasSuffix(callee, "l4tls.parseRawClientHello"):
+				if b, ok := concreteBytes(st, args[0]); ok {
+					parsed = len(b)
+					if 5+len(b) <= len(t.msg) && !bytes.Equal(b, t.msg[5:5+len(b)]) {
+						parsedOK = false
+					}
+				} else {
+					parsed = -2
+				}
+				return SV{K: "struct", Desc: "chi"}, true
+			case strings.Contains(callee, "context.Context.Value"), strings.Contains(callee, "Replacer"):
+				return symRef("repl", false), true
+			}
+			return orig(callee, args, ev, st)
 		}
-		ia, ok := u.X.(*ssa.IndexAddr)
-		if !ok {
-			return false
-		}
-		i, isC := constInt(ia.Index)
-		return isC && i == idx && rootOf(ia.X) == hdrBuf
-	}
-	// R1
-	gate := false
-	var gateIf *ssa.If
-	for _, cd := range edgeConds(reads[1].Block()) {
-		bo, ok := cd.V.(*ssa.BinOp)
-		if !ok {
+		paths, err := evalPaths(fn, sc)
+		if err != nil || len(paths) != 1 {
+			p1 = append(p1, fmt.Sprintf("%s: undecided (%d paths, %v)", t.name, len(paths), err))
 			continue
 		}
-		v, isC := constInt(bo.Y)
-		if isC && v == 22 && isHdrByte(bo.X, 0) && ((bo.Op == token.NEQ && !cd.Truth) || (bo.Op == token.EQL && cd.Truth)) {
-			gate = true
-			gateIf = cd.If
+		p := paths[0]
+		pos := p.Heap["msg.pos"].N
+		ret := p.retDesc()
+		switch {
+		case !t.handshake:
+			if pos != 5 || parsed != -1 || ret != "false, nil" {
+				p1 = append(p1, fmt.Sprintf("%s: consumed %d bytes, parser called: %v, answer (%s); expected 5 bytes, no parsing, (false, nil)", t.name, pos, parsed != -1, ret))
+			}
+		case !t.complete:
+			if parsed != -1 || !strings.Contains(ret, "ErrConsumedAllPrefetchedBytes") {
+				p2 = append(p2, fmt.Sprintf("%s: answer (%s), parser called: %v; expected 'need more' without parsing", t.name, ret, parsed != -1))
+			}
+		default:
+			if parsed == -1 {
+				p1 = append(p1, fmt.Sprintf("%s: the hello parser is not reached (answer %s)", t.name, ret))
+			}
+			if pos != int64(5+t.body) || parsed != t.body || !parsedOK {
+				p2 = append(p2, fmt.Sprintf("%s: %d bytes consumed and %d handed to the hello parser (content equal: %v); the record announces %d body bytes after the 5 header bytes", t.name, pos, parsed, parsedOK, t.body))
+			}
 		}
 	}
-	okOther := false
-	if gateIf != nil {
-		other := gateIf.Block().Succs[0]
-		if bo := gateIf.Cond.(*ssa.BinOp); bo.Op == token.EQL {
-			other = gateIf.Block().Succs[1]
+	// sub-matchers: the verdict on a handshake record is the conjunction of the configured handshake matchers, each
+	// asked about the parsed hello, whose Conn is the connection being matched
+	r.rule("C07.R10", "handshake sub-matchers (evaluation of Match on a complete handshake record with 0..2 sub-matchers, every combination of their answers): the verdict is true iff every sub-matcher asked answers true, at least one is asked when configured, each is given the parsed hello, and that hello's Conn is the connection being matched", 1)
+	var p10 []string
+	for nm := 0; nm <= 2; nm++ {
+		mm := msgMatcher{fn: fnName, cfgName: "tls", heap: func(h map[string]SV) {
+			h["m.matchers"] = symSlice("matchers", int64(nm))
+			h["m.logger"] = symRef("logger", false)
+		}}
+		sc := msgScenario(c, mm, msgCase{name: "hello", msg: mk(22, 5, 5)})
+		orig := sc.Call
+		sc.Call = func(callee string, args []SV, ev *symEval, st *symState) (SV, bool) {
+			switch {
+			case strings.HasSuffix(callee, "l4tls.parseRawClientHello"):
+				return SV{K: "struct", Desc: "chi"}, true
+			case strings.Contains(callee, "context.Context.Value"), strings.Contains(callee, "Replacer"):
+				return symRef("repl", false), true
+			}
+			return orig(callee, args, ev, st)
 		}
-		if ret, ok := other.Instrs[len(other.Instrs)-1].(*ssa.Return); ok && len(ret.Results) == 2 {
-			b, isB := constBool(ret.Results[0])
-			okOther = isB && !b && isNilConst(ret.Results[1])
+		connAtCall := map[string]bool{}
+		sc.Alts = func(callee string, args []SV, ev *symEval, st *symState) []CallAlt {
+			if strings.HasPrefix(callee, "invoke ") && strings.HasSuffix(callee, "ConnectionMatcher.Match") {
+				okConn := false
+				for k, v := range st.heap {
+					if strings.HasSuffix(k, ".Conn") && strings.Contains(k, "chi") && v.Desc == "cx" {
+						okConn = true
+					}
+				}
+				connAtCall[fmt.Sprint(okConn)] = true
+				return []CallAlt{{Ret: symBool(true), Note: "yes"}, {Ret: symBool(false), Note: "no"}}
+			}
+			return nil
 		}
-	}
-	r.check(gate && okOther, "C07.R1", fnName, "handshake record gate", c.ipos(reads[1]), "hello read only for record type 22; other types answer (false, nil)", fmt.Sprintf("the hello is read/parsed without the record-type-22 gate (gate:%v) or a non-handshake record does not answer (false, nil) (%v)", gate, okOther))
-	// R2
-	good := false
-	detail := "buffer is not a make([]byte, n)"
-	if ms, ok := rootOf(reads[1].Call.Args[1]).(*ssa.MakeSlice); ok {
-		sz := ms.Len
-		for {
-			if cv, ok := sz.(*ssa.Convert); ok {
-				sz = cv.X
+		paths, err := evalPaths(fn, sc)
+		if err != nil || len(paths) == 0 {
+			p10 = append(p10, fmt.Sprintf("%d sub-matchers: undecided (%v)", nm, err))
+			continue
+		}
+		for _, p := range paths {
+			all, asked := true, 0
+			for _, e := range p.Trace {
+				if e.Kind == "call" && strings.HasPrefix(e.What, "invoke ") && strings.HasSuffix(e.What, "ConnectionMatcher.Match") {
+					asked++
+					if e.Note == "no" {
+						all = false
+					}
+					if len(e.Args) < 2 || !strings.Contains(e.Args[1], "chi") {
+						p10 = append(p10, "a sub-matcher is asked about "+strings.Join(e.Args, ",")+" instead of the parsed hello")
+					}
+				}
+			}
+			if len(p.Ret) != 2 || !p.Ret[0].Known {
+				p10 = append(p10, "no definite verdict: "+p.retDesc())
 				continue
 			}
-			break
+			if p.Ret[0].B != all {
+				p10 = append(p10, fmt.Sprintf("%d sub-matcher(s), %d asked, all said yes: %v - the verdict is %v", nm, asked, all, p.Ret[0].B))
+			}
+			if nm > 0 && asked == 0 {
+				p10 = append(p10, "configured sub-matchers are not asked")
+			}
+			if all && asked != nm {
+				p10 = append(p10, fmt.Sprintf("a match is reported after asking %d of %d sub-matchers", asked, nm))
+			}
 		}
-		detail = "size is not header[3]<<8 | header[4]"
-		if or, ok := sz.(*ssa.BinOp); ok && or.Op == token.OR {
-			strip := func(v ssa.Value) ssa.Value {
-				for {
-					if cv, ok := v.(*ssa.Convert); ok {
-						v = cv.X
-						continue
-					}
-					return v
-				}
-			}
-			hi, lo := strip(or.X), strip(or.Y)
-			if sh, ok := hi.(*ssa.BinOp); ok && sh.Op == token.SHL {
-				n, isC := constInt(sh.Y)
-				if isC && n == 8 && isHdrByte(strip(sh.X), 3) && isHdrByte(lo, 4) {
-					good = true
-				}
-			}
+		if nm > 0 && (connAtCall["false"] || !connAtCall["true"]) {
+			p10 = append(p10, "the hello given to the sub-matchers does not carry the connection being matched (Conn): matchers that look at the peer address dereference nil")
 		}
 	}
-	r.check(good, "C07.R2", fnName, "hello length", c.ipos(reads[1]), "exactly the record length announced in the header is read", detail+": a different amount than the record announces is parsed as the ClientHello")
+	r.check(len(p10) == 0, "C07.R10", fnName, "sub-matcher conjunction", c.pos(fn.Pos()), "verdict = AND of the sub-matchers over the parsed hello with Conn set", strings.Join(dedup(p10), "; "))
+	r.check(len(p1) == 0, "C07.R1", fnName, "handshake record gate", c.pos(fn.Pos()), fmt.Sprintf("%d first messages", len(cases)), "the record gate is wrong: "+strings.Join(p1, "; "))
+	r.check(len(p2) == 0, "C07.R2", fnName, "hello length", c.pos(fn.Pos()), "exactly the record length announced in the header is read and parsed", "a different amount than the record announces is read or parsed as the ClientHello: "+strings.Join(p2, "; "))
 }
 
 // ---- AST extraction of cryptobyte read sequences ----
